@@ -1087,6 +1087,31 @@ class Emitter:
             extra = []
         if try_key and (try_key in self.cfg.get("calls", {}) or try_key in self.calls):
             return self.call(try_key, args, pre, want, extra_exprs=extra)
+        rng = recv
+        while rng[0] == "paren":
+            rng = rng[1]
+        if name == "map" and len(args) == 1 and args[0][0] == "closure" and len(args[0][1]) == 1 and rng[0] == "range" \
+                and args[0][1][0][0] == "pvar":
+            # `(a..b).map(|i| body)`: the mapped items as a list (`mapM` over `a, a+1, …, b-1`: the body may fault)
+            a, _ = self.expr(rng[1], pre, U)
+            b, _ = self.expr(rng[2], pre, U)
+            cl = args[0]
+            saved = dict(self.env)
+            vn = cl[1][0][1]
+            self.env[vn] = (lname(vn), U)
+            p2 = []
+            body_v, tb = self.expr(cl[2], p2, None)
+            self.env = saved
+            if tb != U:
+                raise Unsupported("`(a..b).map(..)` producing %r" % (tb,))
+            lines = []
+            self.flush(p2, lines, "")
+            if any(not isinstance(l, str) for l in lines):
+                raise Unsupported("`?` inside a closure")
+            body = "; ".join(l.strip() for l in lines)
+            t = self.fresh()
+            pre.append("let %s ← (List.range' %s (%s - %s)).mapM (fun %s => do %s%spure %s)" % (t, a, b, a, lname(vn), body, "; " if body else "", body_v))
+            return t, ("N", "ListIter")
         if (name == "map" and len(args) == 1 and args[0][0] == "closure" and len(args[0][1]) == 1
                 and recv[0] == "mcall" and recv[2] == "iter" and not recv[3]):
             # `pairs.iter().map(|(a, b)| body)`: the mapped items as a list (`mapM`: the body may fault).  The Rust iterator is
@@ -1363,6 +1388,8 @@ class Emitter:
                             acc.add("self_" + root[2])
             if ent and ent.get("setvar"):
                 acc.add(ent["setvar"])
+            if ent and ent.get("load") and self.cfg.get("reader"):
+                acc.add(self.cfg["reader"])                              # `T::load(reader)?` consumes from the stream
             if ent and ent.get("mutself"):
                 for f in self.cfg["self"]["order"]:
                     acc.add("self_" + f)
@@ -1770,8 +1797,11 @@ class Emitter:
     def bind_some(self, pat, ty, out, ind):
         """the `x` of `Some(x)`: a name or a tuple pattern; returns the Lean binder used in the match arm"""
         if isinstance(pat, str):
-            self.env[pat] = (lname(pat), ty)
-            return lname(pat)
+            nm = lname(pat)
+            if pat in self.env and self.env[pat][0] == nm:
+                nm = nm + "_in"                                          # `Some(len)` shadowing an outer `len`: a distinct Lean name
+            self.env[pat] = (nm, ty)
+            return nm
         self.nmatch += 1
         nm = "some%d" % self.nmatch
         self.bind_pat(pat, nm, ty, out, ind)
@@ -1893,6 +1923,8 @@ class Emitter:
         known = {v[0] for v in self.env.values()}
         if self.selfmut:
             known |= {"self_" + f for f in self.cfg["self"]["order"]}
+        if self.cfg.get("reader"):
+            known.add(self.cfg["reader"])
         n0 = len(out)
         self.stmts(stmts, tail, out, ind, cont)
         tracked = set(vs)
@@ -1910,6 +1942,8 @@ class Emitter:
         """of the assigned names, those that denote variables declared OUTSIDE the block (locals of the block itself are
         not part of the state that flows out of it)"""
         known = {v[0] for v in self.env.values()}
+        if self.cfg.get("reader"):
+            known.add(self.cfg["reader"])
         return {n for n in names if n in known or n.startswith("self_")}
 
     def for_stmt(self, st, rest, out, ind, is_fn_body):
@@ -2063,6 +2097,8 @@ class Emitter:
             return False
         for s in block[1]:
             if s[0] == "return":
+                if len(s) > 1 and isinstance(s[1], tuple) and self.is_err(s[1]):
+                    continue                                             # `return Err(..)` is a fault of the monad, not a value
                 return True
             if s[0] == "while" and self.contains_return(s[2]):
                 return True
